@@ -174,11 +174,16 @@ def gen_tree(rng, cxx):
     files['inc/h2.h'] = ('#ifndef H2_H\n#define H2_H\nstruct h2 { int a; long b; };\n#define H2_VAL %d\n#endif\n' % v['h2']).encode()
     files['inc2/h2.h'] = ('#ifndef H2_H\n#define H2_H\nstruct h2 { int a; long b; };\n#define H2_VAL %d\n#endif\n' % (v['h2'] + 20)).encode()
     files['pre.h'] = ('#define PRE %d\n' % v['pre']).encode()
-    body = ['#include <stddef.h>', '#include "h1.h"', '#include "h2.h"', '#ifndef NAME', '#define NAME 3', '#endif']
+    # a header that only the include-path ENVIRONMENT (CPATH, C_INCLUDE_PATH, CPLUS_INCLUDE_PATH) can reach, in two versions
+    files['sdk1/envhdr.h'] = ('#define ENV_VAL %d\n' % (v['h1'] + 30)).encode()
+    files['sdk2/envhdr.h'] = ('#define ENV_VAL %d\n' % (v['h1'] + 40)).encode()
+    body = ['#include <stddef.h>', '#include "h1.h"', '#include "h2.h"', '#ifndef NAME', '#define NAME 3', '#endif',
+            '#if defined(__has_include)', '#if __has_include(<envhdr.h>)', '#include <envhdr.h>', '#endif', '#endif',
+            '#ifndef ENV_VAL', '#define ENV_VAL 0', '#endif']
     if cxx:
         body += ['namespace { int hidden(int q) { return q + %d; } }' % v['src'], 'extern "C" int f(int a);']
     body += ['int f(int a) {', '  int unused_var;', '  struct h2 s; s.a = a; s.b = (long)sizeof(size_t);',
-             '  return h1(s.a) + NAME + H2_VAL + (int)s.b + %d' % v['src']]
+             '  return h1(s.a) + NAME + H2_VAL + ENV_VAL + (int)s.b + %d' % v['src']]
     if cxx:
         body += ['    + hidden(a)']
     body += ['#ifdef PRE', '    + PRE', '#endif', '  ;', '}', '#ifdef ERR', 'int g(void) { return undeclared_identifier; }', '#endif',
@@ -247,6 +252,7 @@ class Flags:
         elif r == 8 and self.clang and cxx:
             self.extra = ['-stdlib=libstdc++']
         self.mode = ['-c']
+        self.diag = []
 
     def args(self, out_override=None, define_override=None):
         a = []
@@ -277,7 +283,7 @@ class Flags:
         extra = list(self.extra)
         if out_override is not None:
             extra = [(out_override + '.dia') if x == 'diag.dia' else x for x in extra]
-        a += self.misc + dep + extra
+        a += self.misc + dep + extra + self.diag
         a += self.mode
         a.append(self.src)
         out = self.out if out_override is None else out_override
@@ -332,8 +338,9 @@ def preprocess_failure_class(direct, wrapped):
         return False
     import re
     summary = re.compile(rb'^\d+ (warning|error)s?( and \d+ (warning|error)s?)? generated\.$')
-    dl = [l for l in direct[2].split(b'\n') if not summary.match(l)]
-    if any(l not in dl for l in wrapped[2].split(b'\n') if not summary.match(l)):
+    sgr = re.compile(rb'\x1b\[[0-9;]*m')
+    dl = [l for l in direct[2].split(b'\n') if not summary.match(sgr.sub(b'', l))]
+    if any(l not in dl for l in wrapped[2].split(b'\n') if not summary.match(sgr.sub(b'', l))):
         return False
     for k in set(direct[3]) | set(wrapped[3]):
         x, y = direct[3].get(k, 'absent'), wrapped[3].get(k, 'absent')
@@ -397,6 +404,52 @@ def command_line_numbering_class(direct, wrapped):
         return False
     norm = lambda b: re.sub(rb'<command line>:\d+:', b'<command line>:N:', re.sub(rb'<built-in>:\d+:', b'<built-in>:N:', b))
     return norm(direct[2]) == norm(wrapped[2])
+
+
+def elf_nondebug(b):
+    """the sections of an object that do not carry debug information, by name"""
+    secs = elf_sections(b)
+    if not secs:
+        return None
+    return [(n, b[o:o + z]) for n, o, z in secs if not n.startswith(('.debug', '.rela.debug', '.shstrtab', '.strtab', '.symtab')) and n]
+
+
+def stale_line_numbers_class(direct, wrapped):
+    """finding C01-S39: outside preprocessor-cache mode the key is the `-E -P` text, which has no line information; after an edit
+    that only moves lines (blank lines, comments) the request is a hit and replays diagnostics and debug line tables with the OLD
+    line numbers.  Recognised as: everything equal except line / column numbers in stderr and the debug sections of objects."""
+    import re
+    if direct[0] != wrapped[0] or direct[1] != wrapped[1] or set(direct[3]) != set(wrapped[3]):
+        return False
+    sgr = re.compile(rb'\x1b\[[0-9;]*[mK]')
+
+    def norm(b):
+        b = sgr.sub(b'', b)
+        b = re.sub(rb'(?m)^\s*\d+ \|', b' N |', b)
+        return re.sub(rb':\d+', b':N', b)
+    if sgr.findall(direct[2]) != sgr.findall(wrapped[2]):
+        return False                  # the rendering itself (colour escapes) must be the same
+    nd, nw = norm(direct[2]), norm(wrapped[2])
+    if nd != nw:
+        # carets / underlines may move with the column; compare without the marker lines
+        strip = lambda b: b'\n'.join(l for l in b.split(b'\n') if set(l.strip()) - set(b'^~| N'))
+        if strip(nd) != strip(nw):
+            return False
+    changed_something = direct[2] != wrapped[2]
+    for k in direct[3]:
+        x, y = direct[3][k], wrapped[3][k]
+        if x == y:
+            continue
+        if not x or not y or x[1] != y[1]:
+            return False
+        if k.endswith('.dia') and len(x[0]) == len(y[0]):
+            changed_something = True          # serialized diagnostics carry the same line numbers
+            continue
+        a, b = elf_nondebug(x[0]), elf_nondebug(y[0])
+        if a is None or b is None or a != b:
+            return False
+        changed_something = True
+    return changed_something
 
 
 def predict(model_fn, kind, args, rsp_files):
@@ -471,6 +524,8 @@ def run_history(hid, rng, sccache, model_fn, port, verdict, n_ops, known_ids):
                 expect_known = 'C01-S33'
             if diffs and not expect_known and command_line_numbering_class(direct, wrapped):
                 expect_known = 'C01-S37'
+            if diffs and not expect_known and stale_line_numbers_class(direct, wrapped):
+                expect_known = 'C01-S39'
             if diffs and not expect_known and '-g' in args and source_md5_class(direct, wrapped):
                 expect_known = 'C01-S36'
             if diffs:
@@ -506,7 +561,7 @@ def run_history(hid, rng, sccache, model_fn, port, verdict, n_ops, known_ids):
         def mask_nondeterministic(args, before, direct, wrapped):
             """files whose bytes differ between two DIRECT runs cannot be compared byte for byte (e.g. the time stamp gcc puts
             into .gcno / coverage objects): their bytes are masked, presence and mode stay compared"""
-            if direct[0] != 0 or wrapped[0] != 0:
+            if direct[0] != wrapped[0]:
                 return direct, wrapped
             differing = [k for k in direct[3] if k in wrapped[3] and direct[3][k] and wrapped[3][k] and direct[3][k][0] != wrapped[3][k][0]]
             if not differing:
@@ -538,9 +593,35 @@ def run_history(hid, rng, sccache, model_fn, port, verdict, n_ops, known_ids):
 
         do_compile('first')
         do_compile('repeat')
+
+        # (1) options that only change how diagnostics are RENDERED, on a unit that compiles with warnings: the stored entry
+        #     carries stderr, so each style is its own result; three styles, then the first again (both orders occur)
+        styles = [[], ['-fdiagnostics-color=never'], ['-fdiagnostics-color=always'], ['-fno-diagnostics-show-option'],
+                  ['-fmessage-length=40'], ['-w'], ['-fno-diagnostics-color'], ['-fdiagnostics-color=auto'], ['-Werror']]
+        styles += ([['-fcolor-diagnostics'], ['-fno-color-diagnostics'], ['-fno-caret-diagnostics'], ['-fno-show-column']] if fl.clang
+                   else [['-fno-diagnostics-show-caret'], ['-fdiagnostics-show-location=every-line'], ['-fdiagnostics-color']])
+        if '-Wall' not in fl.misc:
+            fl.misc.append('-Wall')
+        picked = rng.shuffle(styles)[:3]
+        for st in picked + [picked[0]]:
+            fl.diag = st
+            verdict.count('diag-style.' + (' '.join(st) or 'default'))
+            do_compile('diagnostics style %s' % (' '.join(st) or '(default)'))
+        fl.diag = []
+
+        # (2) the header search path given through the ENVIRONMENT, two directories with a same-named header of different contents
+        var = rng.choice(['CPATH', 'CPLUS_INCLUDE_PATH' if cxx else 'C_INCLUDE_PATH'])
+        first_dir = rng.choice(['sdk1', 'sdk2'])
+        other_dir = 'sdk2' if first_dir == 'sdk1' else 'sdk1'
+        for dname in (first_dir, other_dir, first_dir):
+            envx[var] = dname if rng.chance(1, 2) else os.path.join(tree, dname)
+            verdict.count('env-include.' + var)
+            do_compile('include path from the environment %s=%s' % (var, dname))
+        if rng.chance(1, 2):
+            del envx[var]
         ops = ['edit_src_same', 'edit_src_diff', 'edit_hdr_same', 'edit_hdr_diff', 'edit_hdr2_same', 'revert', 'define', 'incpath',
                'language', 'output', 'env_hashed', 'env_cpath', 'restart', 'concurrent', 'error', 'passthrough', 'repeat', 'warn',
-               'forced', 'opt', 'known']
+               'forced', 'opt', 'known', 'ws_edit', 'env_include', 'diag']
         for step in range(n_ops):
             op = rng.choice(ops)
             verdict.count('op.' + op)
@@ -553,6 +634,22 @@ def run_history(hid, rng, sccache, model_fn, port, verdict, n_ops, known_ids):
                 clock[0] += 1
                 write_file(tree, rel, new, clock[0])
                 do_compile(op + ' ' + rel)
+            elif op == 'ws_edit':
+                # an edit that only moves lines: blank lines / a comment in front of the code
+                rel = fl.src
+                cur = open(os.path.join(tree, rel), 'rb').read()
+                history_of_edits.append((rel, cur))
+                new = rng.choice([b'\n', b'\n\n\n', b'/* moved */\n', b'// c\n\n']) + cur
+                clock[0] += 1
+                write_file(tree, rel, new, clock[0])
+                do_compile('whitespace-only edit ' + rel)
+            elif op == 'env_include':
+                var = rng.choice(['CPATH', 'CPLUS_INCLUDE_PATH' if cxx else 'C_INCLUDE_PATH'])
+                envx[var] = rng.choice(['sdk1', 'sdk2', os.path.join(tree, 'sdk1'), os.path.join(tree, 'sdk2')])
+                do_compile('include path from the environment %s=%s' % (var, envx[var]))
+            elif op == 'diag':
+                fl.diag = rng.choice(styles)
+                do_compile('diagnostics style %s' % (' '.join(fl.diag) or '(default)'))
             elif op == 'revert':
                 if history_of_edits:
                     rel, old = history_of_edits.pop()
@@ -640,7 +737,7 @@ def run_history(hid, rng, sccache, model_fn, port, verdict, n_ops, known_ids):
             elif op == 'repeat':
                 do_compile('repeat')
             elif op == 'passthrough':
-                which = rng.choice(['E', 'S', 'two', 'rsp', 'M', 'nolink'])
+                which = rng.choice(['E', 'S', 'two', 'rsp', 'M', 'nolink', 'rsp_bs'])
                 base = fl.args()
                 if which == 'E':
                     a = [x for x in base if x not in ('-c',) and not x.startswith('-o') and x not in ('out.o', 'sub/out.o', 'sub/other.o')] + ['-E']
@@ -654,19 +751,28 @@ def run_history(hid, rng, sccache, model_fn, port, verdict, n_ops, known_ids):
                     clock[0] += 1
                     write_file(tree, 'args.rsp', ' '.join(x for x in base if ' ' not in x).encode() + b'\n', clock[0])
                     a = ['@args.rsp']
+                elif which == 'rsp_bs':
+                    # gcc / clang read a backslash in a response file as an escape character
+                    clock[0] += 1
+                    write_file(tree, 'esc.rsp', ' '.join(x for x in base if ' ' not in x and not x.startswith('-DNAME')).encode() + b' -DNAME=\\4\n', clock[0])
+                    a = ['@esc.rsp']
                 elif which == 'M':
                     a = [x for x in base if x not in ('-c', '-MD', '-MMD', '-o', 'out.o', 'sub/out.o', 'sub/other.o', '-oout.o')] + ['-M']
                 else:
                     a = [x for x in base if x != '-c' and not x.endswith('.o') and x != '-o'] + ['-fsyntax-only']
-                do_compile('pass-through ' + which, args=a)
+                do_compile('pass-through ' + which, args=a, expect_known='C01-S41' if which == 'rsp_bs' else None)
             elif op == 'known':
-                which = rng.choice(['C01-S21', 'C01-S23', 'C01-S24', 'C01-S33'])
+                which = rng.choice(['C01-S21', 'C01-S23', 'C01-S24', 'C01-S33', 'C01-S41'])
                 if which == 'C01-S21':
                     a = ['-c', fl.src, '-Iinc', '-Iinc2', '-x', 'c++' if not cxx else 'c', '-o', 'k.o']
                 elif which == 'C01-S23':
                     a = ['-c', fl.src, '-Iinc', '-Iinc2', '-MT', 'x', '-o', 'k.o']
                 elif which == 'C01-S33':
                     a = ['-c', fl.src, '-Iinc', '-Iinc2', '-DWARN', '-Wall', '-Werror', '-o', 'k.o']
+                elif which == 'C01-S41':
+                    clock[0] += 1
+                    write_file(tree, 'k.rsp', ('-DNAME=\\4 -Iinc -Iinc2 -c %s -o k.o\n' % fl.src).encode(), clock[0])
+                    a = ['@k.rsp']
                 else:
                     a = ['-c', fl.src, '-Iinc', '-Iinc2', '-o', 'k.o', '-I']
                 do_compile('witness of ' + which, args=a, expect_known=which)
@@ -677,3 +783,169 @@ def run_history(hid, rng, sccache, model_fn, port, verdict, n_ops, known_ids):
             pass
         srv.kill_leftovers()
         shutil.rmtree(root, ignore_errors=True)
+
+
+# ------------------------------------------------------------------ fixed scenarios (deterministic interleavings / special places)
+
+def _compare(verdict, tag, compiler, args, direct, wrapped, note, known_ids, expect_known=None, replay=None):
+    verdict.requests += 1
+    diffs = describe_diff(direct, wrapped)
+    if diffs:
+        if expect_known and expect_known in known_ids:
+            verdict.known[expect_known] = verdict.known.get(expect_known, 0) + 1
+        else:
+            verdict.violations.append(('transparency', '%s %s [%s; %s]: %s' % (compiler, ' '.join(args), tag, note, '; '.join(diffs)), replay or {}))
+    elif expect_known:
+        verdict.count('known-not-reproduced.' + expect_known)
+    return not diffs
+
+
+def _both(srv, sccache, compiler, args, tree, envx=None):
+    """direct run, restore, wrapped run (same directory, same files)"""
+    before = snapshot(tree)
+    env = srv.env(envx)
+    rc, o, e = run([compiler] + args, tree, env)
+    d = (rc, o, e, changed(before, snapshot(tree)))
+    restore(tree, before)
+    rc, o, e = run([sccache, compiler] + args, tree, env)
+    w = (rc, o, e, changed(before, snapshot(tree)))
+    return d, w
+
+
+def scenario_header_saved_during_compile(sid, sccache, port, verdict, known_ids, real_compiler, cxx):
+    """A header is saved by somebody else right after the preprocessor of an in-flight request has read it (made deterministic
+    with a compiler shim that, when armed, rewrites the header at the end of its -E run).  Whatever that racy request does, every
+    LATER request must produce what the compiler produces from the files as they are then."""
+    root = ROOT_PREFIX + '%d-s%d' % (os.getpid(), sid)
+    shutil.rmtree(root, ignore_errors=True)
+    tree = os.path.join(root, 'w')
+    os.makedirs(os.path.join(tree, 'extra'))
+    os.makedirs(os.path.join(root, 'bin'))
+    real = shutil.which(real_compiler)
+    shim = os.path.join(root, 'bin', real_compiler)
+    with open(shim, 'w') as fh:
+        fh.write('#!/bin/sh\n# the real compiler; when `armed` exists, cfg.h is saved by "somebody else" right after preprocessing\n'
+                 'pre=\nfor a in "$@"; do [ "$a" = -E ] && pre=1; done\n'
+                 'if [ -n "$pre" ] && [ -e "%s/armed" ]; then\n  rm -f "%s/armed"\n  "%s" "$@"; rc=$?\n  sleep 0.3\n'
+                 '  cp "%s/cfg.h.new" "%s/cfg.h"\n  exit $rc\nfi\nexec "%s" "$@"\n' % (tree, tree, real, root, tree, real))
+    os.chmod(shim, 0o755)
+    src = 'a.cpp' if cxx else 'a.c'
+    write_file(tree, src, b'#include "cfg.h"\nint limit(void) { return CFG_LIMIT; }\n', 1)
+    write_file(tree, 'cfg.h', b'#define CFG_LIMIT 100\n', 2)
+    with open(os.path.join(root, 'cfg.h.new'), 'wb') as fh:
+        fh.write(b'#define CFG_LIMIT 200\n')
+    srv = Server(sccache, root, port, True)
+    tag = '%s shim, pp-cache' % real_compiler
+    replay = {'scenario': 'header_saved_during_compile', 'sid': sid, 'compiler': real_compiler, 'cxx': cxx}
+    verdict.count('scenario.header-saved-during-compile')
+    srv.start()
+    try:
+        for note in ('cfg.h = 100, compiled and stored', 'again (hit)'):
+            d, w = _both(srv, sccache, shim, ['-c', src, '-o', 'a.o'], tree)
+            _compare(verdict, tag, real_compiler, ['-c', src, '-o', 'a.o'], d, w, note, known_ids, replay=replay)
+        open(os.path.join(tree, 'armed'), 'w').close()
+        run([sccache, shim, '-Iextra', '-c', src, '-o', 'a.o'], tree, srv.env())     # the racy request: not judged
+        if os.path.exists(os.path.join(tree, 'armed')) or open(os.path.join(tree, 'cfg.h'), 'rb').read() != b'#define CFG_LIMIT 200\n':
+            verdict.count('scenario.header-saved-during-compile.not-armed')
+        time.sleep(1.3)
+        for args, note in ((['-Iextra', '-c', src, '-o', 'a.o'], 'first request after the header was saved mid-compile'),
+                           (['-Iextra', '-c', src, '-o', 'a.o'], 'the same again'),
+                           (['-c', src, '-o', 'a.o'], 'the original command line again')):
+            d, w = _both(srv, sccache, shim, args, tree)
+            _compare(verdict, tag, real_compiler, args, d, w, note + ' (cfg.h: %s)' % open(os.path.join(tree, 'cfg.h')).read().strip(),
+                     known_ids, replay=replay)
+    finally:
+        srv.stop()
+        srv.kill_leftovers()
+        shutil.rmtree(root, ignore_errors=True)
+
+
+def scenario_two_build_dirs(sid, sccache, port, verdict, known_ids, compiler):
+    """The same absolute source compiled from two build directories with a relative -I. and a different config.h in each."""
+    root = ROOT_PREFIX + '%d-s%d' % (os.getpid(), sid)
+    shutil.rmtree(root, ignore_errors=True)
+    for d in ('src', 'b1', 'b2'):
+        os.makedirs(os.path.join(root, d))
+    src = os.path.join(root, 'src', 'a.c')
+    write_file(root, 'src/a.c', b'#include "config.h"\nint v(void) { return CFG; }\n', 1)
+    write_file(root, 'b1/config.h', b'#define CFG 1\n', 2)
+    write_file(root, 'b2/config.h', b'#define CFG 2\n', 3)
+    verdict.count('scenario.two-build-dirs')
+    for direct_mode in (True, False):
+        srv = Server(sccache, os.path.join(root, 'pp' if direct_mode else 'nopp'), port, direct_mode)
+        tag = '%s %s' % (compiler, 'pp-cache' if direct_mode else 'no-pp-cache')
+        srv.start()
+        try:
+            for bd in ('b1', 'b1', 'b2', 'b1'):
+                d, w = _both(srv, sccache, compiler, ['-I.', '-c', src, '-o', 'a.o'], os.path.join(root, bd))
+                _compare(verdict, tag, compiler, ['-I.', '-c', src, '-o', 'a.o'], d, w, 'build directory %s' % bd, known_ids,
+                         expect_known='C01-S38' if direct_mode else None, replay={'scenario': 'two_build_dirs', 'sid': sid, 'compiler': compiler})
+        finally:
+            srv.stop()
+            srv.kill_leftovers()
+    shutil.rmtree(root, ignore_errors=True)
+
+
+def scenario_device_output(sid, sccache, port, verdict, known_ids, compiler):
+    """`-o` names a character device (a private copy of the null device; /dev/null itself is never touched)."""
+    if os.geteuid() != 0:
+        verdict.count('scenario.device-output.skipped-not-root')
+        return
+    root = ROOT_PREFIX + '%d-s%d' % (os.getpid(), sid)
+    shutil.rmtree(root, ignore_errors=True)
+    tree = os.path.join(root, 'w')
+    os.makedirs(tree)
+    os.makedirs(os.path.join(root, 'dev'))
+    node = os.path.join(root, 'dev', 'null')
+    try:
+        os.mknod(node, 0o666 | stat.S_IFCHR, os.makedev(1, 3))
+    except OSError:
+        verdict.count('scenario.device-output.skipped-no-mknod')
+        shutil.rmtree(root, ignore_errors=True)
+        return
+    write_file(tree, 't.c', b'int t(void) { return 1; }\n', 1)
+    srv = Server(sccache, root, port, False)
+    verdict.count('scenario.device-output')
+    srv.start()
+    try:
+        args = ['-c', 't.c', '-o', node]
+        run([compiler] + args, tree, srv.env())
+        ok_direct = stat.S_ISCHR(os.lstat(node).st_mode)
+        kinds = []
+        for _ in range(2):          # stored, then answered from the cache
+            rc, o, e = run([sccache, compiler] + args, tree, srv.env())
+            kinds.append((rc, stat.S_ISCHR(os.lstat(node).st_mode)))
+        verdict.requests += 2
+        if ok_direct and not all(k for _, k in kinds):
+            fid = 'C01-S40'
+            if fid in known_ids:
+                verdict.known[fid] = verdict.known.get(fid, 0) + 1
+            else:
+                verdict.violations.append(('transparency', '%s %s: the output is a character device; the direct compile writes into it, the wrapped one '
+                                           'replaces the device node by a regular file (%r)' % (compiler, ' '.join(args), kinds),
+                                           {'scenario': 'device_output', 'sid': sid, 'compiler': compiler}))
+        elif ok_direct:
+            verdict.count('known-not-reproduced.C01-S40')
+    finally:
+        srv.stop()
+        srv.kill_leftovers()
+        shutil.rmtree(root, ignore_errors=True)
+
+
+SCENARIOS = {
+    'header_saved_during_compile': scenario_header_saved_during_compile,
+    'two_build_dirs': scenario_two_build_dirs,
+    'device_output': scenario_device_output,
+}
+
+
+def scenario_plan(tier):
+    """(name, kwargs) list; quick runs each scenario once, thorough for every compiler"""
+    plan = [('header_saved_during_compile', dict(real_compiler='gcc', cxx=False)),
+            ('two_build_dirs', dict(compiler='gcc')), ('device_output', dict(compiler='gcc'))]
+    if tier == 'thorough':
+        plan += [('header_saved_during_compile', dict(real_compiler='clang', cxx=False)),
+                 ('header_saved_during_compile', dict(real_compiler='g++', cxx=True)),
+                 ('header_saved_during_compile', dict(real_compiler='clang++', cxx=True)),
+                 ('two_build_dirs', dict(compiler='clang')), ('device_output', dict(compiler='clang'))]
+    return plan
